@@ -343,8 +343,26 @@ def _lookup_unit_symbol(symbol_str, unit_symbol_lut):
     )
 
 
+# unyt's own dimension objects, keyed by themselves
+_known_dimensions = {dim: dim for dim in unyt_dims.base_dimensions}
+_known_dimensions.update({v[1]: v[1] for v in default_unit_symbol_lut.values()})
+
+
+def _intern_dimensions(dims):
+    """
+    Swap a dimension expression that is equal but not identical to one of
+    unyt's own (e.g. after unpickling) for unyt's object: the library tests for
+    angle, temperature and logarithmic dimensions by identity.
+    """
+    try:
+        return _known_dimensions[dims]
+    except KeyError:
+        return dims.xreplace(_known_dimensions)
+
+
 def _correct_old_unit_registry(data, sympify=False):
     lut = {}
+    interned = {}
     for k, v in data.items():
         unsan_v = list(v)
         if sympify:
@@ -382,6 +400,11 @@ def _correct_old_unit_registry(data, sympify=False):
                     unsan_v[0] /= 1000 ** float(power)
                 if dim == unyt_dims.length:
                     unsan_v[0] /= 100 ** float(power)
+        else:
+            # rows share their dimension objects: intern each of them once
+            if unsan_v[1] not in interned:
+                interned[unsan_v[1]] = _intern_dimensions(unsan_v[1])
+            unsan_v[1] = interned[unsan_v[1]]
 
         lut[k] = tuple(unsan_v)
     for k in default_unit_symbol_lut:
